@@ -696,7 +696,9 @@ impl SvgElement {
         // captured in the 'remain' thing for deferred elements, and is always the same
         // element as evaluated here. Probably need to store a 'prev' (and later, 'next')
         // internal ID with each element so can follow a chain of these.
-        let mut seen: Vec<OrderIndex> = vec![];
+        // (elements generated by different passes of a loop share an OrderIndex, so
+        // the id is part of what identifies an element)
+        let mut seen: Vec<(OrderIndex, Option<String>)> = vec![];
         let mut element = self;
 
         while element.name == "use" || element.name == "reuse" {
@@ -707,13 +709,14 @@ impl SvgElement {
                 .ok_or_else(|| SvgdxError::MissingAttribute("href".to_owned()))?;
             let elref = href.parse()?;
             if let Some(el) = ctx.get_element(&elref) {
-                if seen.contains(&el.order_index) {
+                let key = (el.order_index.clone(), el.get_attr("id"));
+                if seen.contains(&key) {
                     return Err(SvgdxError::CircularRefError(format!(
                         "{} already seen",
                         elref
                     )));
                 }
-                seen.push(el.order_index.clone());
+                seen.push(key);
                 element = el;
             } else {
                 return Err(SvgdxError::ReferenceError(elref));
